@@ -5,6 +5,7 @@ import (
 	"testing"
 
 	"github.com/ipfs/go-datastore"
+	cidlink "github.com/ipld/go-ipld-prime/linking/cid"
 	"github.com/libp2p/go-libp2p/core/peer"
 
 	datatransfer "github.com/filecoin-project/go-data-transfer/v2"
@@ -424,5 +425,131 @@ func TestC03Step(t *testing.T) {
 		}
 		cs.Stop(bg)
 		settle()
+	})
+}
+
+// TestC03Mgr: the responder's finalization hold at manager level. A responder whose validator
+// required finalization is driven to Finalizing; then a PRNG series of validation updates that all
+// still require finalization (with every shape of data limit: none, used up, not used up, huge; with
+// and without ForcePause), voucher traffic and late data reports must neither release it nor send an
+// un-paused Complete nor resume the transport; a releasing update (RequiresFinalization=false, no
+// force pause) must complete it and send exactly one un-paused Complete.
+func TestC03Mgr(t *testing.T) {
+	vf.Run(t, "C03Mgr", vf.Opts{Bubble: true, DefaultN: 24}, func(c *vf.Case) {
+		r := c.Rng
+		peers := gen.Peers(r, 2)
+		self, other := peers[0], peers[1]
+		pull := c.Index%2 == 0
+		f := newMgrFix(c, self, nil)
+		limit0 := []uint64{0, 0, 5000, 1 << 40}[(c.Index/2)%4]
+		f.val.SetOutcome(func(kind string, n int, ch datatransfer.ChannelID) (datatransfer.ValidationResult, error) {
+			return datatransfer.ValidationResult{Accepted: true, RequiresFinalization: true, DataLimit: limit0}, nil
+		})
+		v := gen.Voucher(r, "VT0")
+		chid := f.mkResponder(pull, other, datatransfer.TransferID(1+r.Intn(1<<30)), v)
+		ev := f.tp.Events()
+		link := cidlink.Link{Cid: dummyCid}
+		ev.OnTransferInitiated(chid)
+		settle()
+		moved := uint64(0)
+		for i := 1; i <= 1+r.Intn(4); i++ {
+			sz := uint64(100 + r.Intn(900))
+			if limit0 != 0 && moved+sz >= limit0 {
+				break
+			}
+			if pull {
+				ev.OnDataQueued(chid, link, sz, int64(i), true)
+			} else {
+				ev.OnDataReceived(chid, link, sz, int64(i), true)
+			}
+			moved += sz
+			settle()
+		}
+		ev.OnChannelCompleted(chid, nil)
+		settle()
+		v0 := f.view(chid)
+		if v0 == nil || v0.Status != datatransfer.Finalizing {
+			c.Note("setup did not reach Finalizing: %v", v0)
+			c.Count("setup_not_finalizing", 1)
+			f.stop()
+			return
+		}
+		unpausedCompletes := func(from int) int {
+			n := 0
+			for _, s := range f.net.Sends(from) {
+				if rs, ok := s.Msg.(datatransfer.Response); ok && rs.TransferID() == chid.ID && rs.IsComplete() && !rs.IsPaused() {
+					n++
+				}
+			}
+			return n
+		}
+		nnet, ntp := f.net.Len(), f.tp.Len()
+		steps := 1 + r.Intn(6)
+		for i := 0; i < steps && c.Violations() == 0; i++ {
+			what := ""
+			switch r.Intn(5) {
+			case 0, 1, 2:
+				lim := []uint64{0, moved, moved + 1, moved + 1 + uint64(r.Intn(100000)), 1 << 50, limit0}[r.Intn(6)]
+				res := datatransfer.ValidationResult{Accepted: true, RequiresFinalization: true, DataLimit: lim, ForcePause: r.Intn(3) == 0}
+				if r.Intn(3) == 0 {
+					tv := gen.Voucher(r, "VT1")
+					res.VoucherResult = &tv
+				}
+				what = fmt.Sprintf("UpdateValidationStatus{RequiresFinalization:true DataLimit:%d (moved %d) ForcePause:%v}", lim, moved, res.ForcePause)
+				if err := f.m.UpdateValidationStatus(bg, chid, res); err != nil {
+					c.Note("%s: %v", what, err)
+				}
+				c.Count("holding_updates", 1)
+			case 3:
+				tv := gen.Voucher(r, "VT1")
+				what = "SendVoucherResult"
+				f.m.SendVoucherResult(bg, chid, tv)
+			default:
+				what = "late data report"
+				if pull {
+					ev.OnDataSent(chid, link, 10, 1, true)
+				} else {
+					ev.OnDataReceived(chid, link, 10, 1, false)
+				}
+			}
+			settle()
+			vn := f.view(chid)
+			if vn == nil || vn.Status != datatransfer.Finalizing {
+				c.Violation("C03", "left-finalizing-without-release", "responder (pull=%v) left Finalizing (now %v) after %s", pull, vn, what)
+				break
+			}
+			if !vn.ResponderPaused {
+				c.Violation("C03", "finalizing-not-reported-paused", "responder in Finalizing reports ResponderPaused=false after %s", what)
+			}
+			if n := unpausedCompletes(nnet); n > 0 {
+				c.Violation("C03", "unpaused-complete-while-finalizing", "responder sent an un-paused Complete while still held for finalization, after %s", what)
+			}
+			for _, tc := range f.tp.CallsFrom(ntp) {
+				if tc.Chid == chid && tc.Op == "resume" {
+					c.Violation("C03", "transport-resumed-while-finalizing", "transport resumed while the responder is held for finalization, after %s", what)
+				}
+			}
+		}
+		if c.Violations() == 0 {
+			// the release
+			if err := f.m.UpdateValidationStatus(bg, chid, datatransfer.ValidationResult{Accepted: true, RequiresFinalization: false, DataLimit: 0}); err != nil {
+				c.Violation("C03", "release-error", "releasing update failed: %v", err)
+			}
+			settle()
+			vend := f.view(chid)
+			if vend == nil || vend.Status != datatransfer.Completed {
+				c.Violation("C03", "released-responder-not-completed", "released responder ended in %v", vend)
+			}
+			if n := unpausedCompletes(nnet); n != 1 {
+				c.Violation("C03", fmt.Sprintf("release-complete-messages %d", n), "release sent %d un-paused Complete messages, want 1", n)
+			}
+			c.Count("manager_releases", 1)
+		}
+		c.Mark("pull=%v limit0=%d steps=%d", pull, limit0, steps)
+		c.NonTrivial()
+		if c.Index < 2 {
+			c.Sample(map[string]any{"level": "manager", "pull": pull, "initial_limit": limit0, "moved": moved, "holding_steps": steps})
+		}
+		f.stop()
 	})
 }
